@@ -497,7 +497,13 @@ var scAppendNumber = &Model{
 		if len(out) == 1 && out[0] < 0 {
 			return "panic"
 		}
-		return fmt.Sprintf("gs%d/ds%d/group%d", utf8.RuneLen(rune(c.Args[3])), utf8.RuneLen(rune(c.Args[4])), c.Args[2])
+		g := "group0"
+		if c.Args[2] > 0 {
+			g = "group+"
+		} else if c.Args[2] < 0 {
+			g = "group-"
+		}
+		return fmt.Sprintf("gs%d/ds%d/%s", utf8.RuneLen(rune(c.Args[3])), utf8.RuneLen(rune(c.Args[4])), g)
 	},
 }
 
@@ -699,4 +705,915 @@ func init() {
 			{Name: "c14-number-roundtrip", Run: c14NumberOracle},
 		},
 	}
+}
+
+// ---- floats: correspondence models (bit-for-bit, math.Float64bits) -----------------------------------------
+
+func canonBits(f float64) uint64 {
+	if f != f {
+		return 0x7FF8000000000000
+	}
+	return math.Float64bits(f)
+}
+
+func floatRes(f float64, n int) []int64 {
+	hi, lo := u64halves(canonBits(f))
+	return []int64{hi, lo, int64(n)}
+}
+
+var c14FloatAlphabet = []byte{'-', '+', '0', '1', '9', '.', 'e'}
+
+func digitsN(r *Rng, n int) []byte {
+	b := make([]byte, n)
+	for i := range b {
+		b[i] = byte('0' + r.Intn(10))
+	}
+	return b
+}
+
+// genFloatString: [sign] digits [. digits] [e [sign] digits] directed at digit-count and exponent boundaries.
+func genFloatString(r *Rng) []byte {
+	var b []byte
+	switch r.Intn(6) {
+	case 0:
+		b = append(b, '-')
+	case 1:
+		b = append(b, '+')
+	}
+	mant := func() {
+		ni := []int{0, 0, 1, 1, 2, 5, 15, 16, 17, 19, 20, 21, 25, 40}[r.Intn(14)]
+		if r.Chance(1, 4) {
+			ni = r.Intn(24)
+		}
+		ip := digitsN(r, ni)
+		if r.Chance(1, 4) {
+			for i := 0; i < len(ip) && i < 1+r.Intn(6); i++ {
+				ip[i] = '0'
+			}
+		}
+		if r.Chance(1, 8) && ni > 0 {
+			ip = []byte(r.PickStr(c14IntBoundary))
+		}
+		if r.Chance(1, 10) { // long run of zeros: large positive decimal exponent without 'e'
+			ip = append(ip, bytes.Repeat([]byte{'0'}, []int{3, 22, 37, 300, 310, 330}[r.Intn(6)])...)
+		}
+		b = append(b, ip...)
+		if r.Chance(3, 5) {
+			b = append(b, '.')
+			nf := []int{0, 1, 2, 3, 8, 15, 17, 18, 19, 20, 22, 30}[r.Intn(12)]
+			fp := digitsN(r, nf)
+			if r.Chance(1, 5) { // many zeros after the dot: mantExp beyond Pow10's domain
+				z := []int{1, 5, 22, 300, 308, 323, 324, 330, 400}[r.Intn(9)]
+				fp = append(bytes.Repeat([]byte{'0'}, z), fp...)
+			}
+			b = append(b, fp...)
+		}
+	}
+	mant()
+	if r.Chance(1, 2) {
+		if r.Bool() {
+			b = append(b, 'e')
+		} else {
+			b = append(b, 'E')
+		}
+		switch r.Intn(4) {
+		case 0:
+			b = append(b, '-')
+		case 1:
+			b = append(b, '+')
+		}
+		var e int
+		switch r.Intn(7) {
+		case 0:
+			e = r.Intn(45) // around 22 and 15+22
+		case 1:
+			e = 280 + r.Intn(60) // 280..339: around 308, 323
+		case 2:
+			e = r.Intn(400)
+		case 3:
+			e = []int{0, 1, 15, 21, 22, 23, 37, 38, 307, 308, 309, 310, 322, 323, 324, 325, 326, 400, 616, 617, 631, 632, 5000}[r.Intn(23)]
+		case 4:
+			b = append(b, []byte(r.PickStr(c14IntBoundary))...)
+			e = -1
+		case 5:
+			e = -1 // no exponent digits
+		default:
+			e = r.Intn(30)
+		}
+		if e >= 0 {
+			if r.Chance(1, 6) {
+				b = append(b, '0', '0')
+			}
+			b = append(b, []byte(gostrconv.Itoa(e))...)
+		}
+	}
+	switch r.Intn(10) { // tails / malformations
+	case 0:
+		b = append(b, '.')
+	case 1:
+		b = append(b, 'e', '5')
+	case 2:
+		b = append(b, byte(r.Intn(256)))
+	case 3:
+		if len(b) > 0 {
+			b[r.Intn(len(b))] = []byte{'.', 'e', '-', '+', 'E', 'x', 0, ','}[r.Intn(8)]
+		}
+	case 4:
+		if len(b) > 0 {
+			k := r.Intn(len(b))
+			b = append(b[:k], b[k+1:]...)
+		}
+	}
+	return b
+}
+
+// genDecimalFromFloat: a decimal literal that is the shortest or a long rendering of a random double.
+func genFloatLiteral(r *Rng) []byte {
+	f := genFloat64(r)
+	if math.IsNaN(f) || math.IsInf(f, 0) {
+		f = 1.5
+	}
+	switch r.Intn(4) {
+	case 0:
+		return []byte(gostrconv.FormatFloat(f, 'e', -1, 64))
+	case 1:
+		return []byte(gostrconv.FormatFloat(f, 'e', 5+r.Intn(25), 64))
+	case 2:
+		if math.Abs(f) < 1e40 && math.Abs(f) > 1e-40 {
+			return []byte(gostrconv.FormatFloat(f, 'f', -1, 64))
+		}
+		return []byte(gostrconv.FormatFloat(f, 'g', -1, 64))
+	default:
+		if math.Abs(f) < 1e25 {
+			return []byte(gostrconv.FormatFloat(f, 'f', r.Intn(30), 64))
+		}
+		return []byte(gostrconv.FormatFloat(f, 'g', 17, 64))
+	}
+}
+
+var c14FloatValues = func() []float64 {
+	v := []float64{0, math.Copysign(0, -1), 1, -1, 0.5, -0.5, 0.1, -0.096, 0.096, 1e-300, 1e-291, 1e-292, 1e300, math.MaxFloat64, -math.MaxFloat64,
+		math.SmallestNonzeroFloat64, -math.SmallestNonzeroFloat64, 2.2250738585072014e-308, 2.225073858507201e-308, math.NaN(), math.Inf(1), math.Inf(-1),
+		9007199254740992, 9007199254740993, 9007199254740991, 9.223372036854775e18, 9.223372036854776e18, -9.223372036854776e18, 1e17, 1e18, 1e19, 123456789.125,
+		0.285, 1.005, 2.5, 0.125, 0.375, 1e-5, 1e-4, 1e-3, 0.00099, 999.9995, 0.9995, 99999.5, 4.35, 0.045, 1e15, 1e16, 1e-7, 1e21, 1e22, 1e23,
+		100, 1000, 10000, 1200, 120000, 1e6, 1.5e6, 12345678, 0.001234, 0.0001234, 0.00001234, 5e-324, 1.7976931348623157e308, 4.9e-324, 1e-323, 1e-310, 3e-320}
+	for k := -325; k <= 310; k += 1 {
+		f, _ := gostrconv.ParseFloat(fmt.Sprintf("1e%d", k), 64)
+		v = append(v, f)
+	}
+	return v
+}()
+
+func genFloat64(r *Rng) float64 {
+	switch r.Intn(10) {
+	case 0, 1:
+		f := c14FloatValues[r.Intn(len(c14FloatValues))]
+		switch r.Intn(4) {
+		case 0:
+			return math.Nextafter(f, math.Inf(1))
+		case 1:
+			return math.Nextafter(f, math.Inf(-1))
+		case 2:
+			return -f
+		}
+		return f
+	case 2: // random bits
+		return math.Float64frombits(r.U64())
+	case 3: // few decimal digits: d * 10^k
+		d := float64(r.Intn(100000))
+		k := r.Intn(25) - 12
+		f := d * math.Pow10(k)
+		if k < 0 {
+			f = d / math.Pow10(-k)
+		}
+		if r.Bool() {
+			f = -f
+		}
+		return f
+	case 4: // integers around powers of two up to 2^66
+		k := uint(r.Intn(67))
+		f := math.Ldexp(1, int(k)) + float64(r.Intn(5)-2)
+		if r.Bool() {
+			f = -f
+		}
+		return f
+	case 5: // ties for AppendDecimal: (2m+1)/2 * 10^-dec
+		m := float64(2*r.Intn(100000) + 1)
+		f := m / 2 / math.Pow10(r.Intn(8))
+		if r.Bool() {
+			f = -f
+		}
+		return f
+	case 6: // subnormals
+		return math.Float64frombits(r.U64() >> uint(12+r.Intn(52)))
+	default: // random mantissa, exponent in a window
+		e := r.Intn(140) - 70
+		if r.Chance(1, 4) {
+			e = r.Intn(2098) - 1074
+		}
+		f := math.Ldexp(1+float64(r.U64()>>11)/float64(uint64(1)<<53), e)
+		if r.Bool() {
+			f = -f
+		}
+		return f
+	}
+}
+
+func floatCase(fn string, f float64, p int, b, sp []byte) Case {
+	hi, lo := u64halves(math.Float64bits(f))
+	args := []int64{hi, lo, int64(p)}
+	args = append(args, bytesToArgs(b)...)
+	args = append(args, bytesToArgs(sp)...)
+	return Case{Fn: fn, Args: args, Note: fmt.Sprintf("%s(%q cap+%d, %v [%#x], %d)", fn, b, len(sp), f, math.Float64bits(f), p)}
+}
+
+func caseFloat(c Case) float64 {
+	return math.Float64frombits(uint64(c.Args[0])<<32 | uint64(c.Args[1]))
+}
+
+func parseFloatGen(fn string) func(r *Rng, tier string, emit func(Case)) {
+	return func(r *Rng, tier string, emit func(Case)) {
+		k, n := 5, 9000
+		if tier == "thorough" {
+			k, n = 7, 500000
+		}
+		allStrings(c14FloatAlphabet, k, func(b []byte) { emit(bytesCase(fn, b)) })
+		for _, s := range []string{"", "-", ".", "-.", "+.", "e", "1e", "1e+", "1e-", "1.e1", ".e1", "1..2", "1.2.3", "-0", "-0.0", "0e400", "1e400", "1e-400",
+			"18446744073709551615", "18446744073709551616", "1844674407370955161.5", "184467440737095516150", "0.18446744073709551616", "18446744073709551616e-5",
+			"1e22", "1e23", "1e37", "1e38", "1000000000000000e22", "1000000000000001e22", "9007199254740993", "1e-22", "1e-23", "123456789012345678e-22",
+			"1e308", "1e309", "1e-323", "1e-324", "2e-324", "3e-324", "1e-308", "2.2250738585072014e-308", "4.9e-324", "17976931348623157e292", "17976931348623159e292",
+			"1e9223372036854775807", "1e-9223372036854775808", "1e9223372036854775808", "0.000001e9223372036854775807", "1000000e-9223372036854775808"} {
+			emit(bytesCase(fn, []byte(s)))
+			emit(bytesCase(fn, []byte("-"+s)))
+		}
+		for _, z := range []int{300, 307, 308, 309, 322, 323, 324, 325, 400} {
+			zs := string(bytes.Repeat([]byte{'0'}, z))
+			emit(bytesCase(fn, []byte("0."+zs+"1")))
+			emit(bytesCase(fn, []byte("0."+zs+"1e400")))
+			emit(bytesCase(fn, []byte("0."+zs+"1e"+gostrconv.Itoa(z))))
+			emit(bytesCase(fn, []byte("1"+zs)))
+			emit(bytesCase(fn, []byte("1"+zs+"e-"+gostrconv.Itoa(z))))
+			emit(bytesCase(fn, []byte("1"+zs+"e-400")))
+		}
+		for i := 0; i < n; i++ {
+			if i%4 == 3 {
+				emit(bytesCase(fn, genFloatLiteral(r)))
+			} else {
+				emit(bytesCase(fn, genFloatString(r)))
+			}
+		}
+	}
+}
+
+func floatResClass(c Case, out []int64) string {
+	if len(out) != 3 {
+		return "panic"
+	}
+	f := math.Float64frombits(uint64(out[0])<<32 | uint64(out[1]))
+	s := "normal"
+	switch {
+	case f != f:
+		s = "nan"
+	case math.IsInf(f, 0):
+		s = "inf"
+	case f == 0:
+		s = "zero"
+	case math.Abs(f) < 2.2250738585072014e-308:
+		s = "subnormal"
+	}
+	if out[2] == 0 {
+		return s + "/len0"
+	}
+	if int(out[2]) == int(c.Args[0]) {
+		return s + "/all"
+	}
+	return s + "/prefix"
+}
+
+var scParseFloat = &Model{
+	Name: "sc_parsefloat",
+	Gen:  parseFloatGen("sc_parsefloat"),
+	Impl: func(c Case) []int64 {
+		bv, _ := takeList(c.Args)
+		var out []int64
+		if p := catch(func() { f, n := strconv.ParseFloat(toBytes(bv)); out = floatRes(f, n) }); p != nil {
+			return []int64{-1}
+		}
+		return out
+	},
+	Shrink: shrinkLastBytes(0),
+	Class:  floatResClass,
+}
+
+var scParseDecimal = &Model{
+	Name: "sc_parsedecimal",
+	Gen:  parseFloatGen("sc_parsedecimal"),
+	Impl: func(c Case) []int64 {
+		bv, _ := takeList(c.Args)
+		var out []int64
+		if p := catch(func() { f, n := strconv.ParseDecimal(toBytes(bv)); out = floatRes(f, n) }); p != nil {
+			return []int64{-1}
+		}
+		return out
+	},
+	Shrink: shrinkLastBytes(0),
+	Class:  floatResClass,
+}
+
+func appendFloatGen(fn string, lo, hi int) func(r *Rng, tier string, emit func(Case)) {
+	return func(r *Rng, tier string, emit func(Case)) {
+		for _, f := range c14FloatValues {
+			for p := lo; p <= hi; p++ {
+				emit(floatCase(fn, f, p, nil, nil))
+			}
+			emit(floatCase(fn, -f, lo+r.Intn(hi-lo+1), []byte("x"), bytes.Repeat([]byte{'#'}, 30)))
+		}
+		// small scope: every k/1000 for |k| <= 1100 and every precision 0..4
+		for k := -1100; k <= 1100; k++ {
+			for p := 0; p <= 4; p++ {
+				emit(floatCase(fn, float64(k)/1000, p, nil, nil))
+			}
+		}
+		n := 6000
+		if tier == "thorough" {
+			n = 400000
+		}
+		for i := 0; i < n; i++ {
+			b, sp := genPrefixSpare(r)
+			emit(floatCase(fn, genFloat64(r), lo+r.Intn(hi-lo+1), b, sp))
+		}
+	}
+}
+
+func appendResClass(c Case, out []int64) string {
+	if len(out) == 1 && out[0] < 0 {
+		return "panic"
+	}
+	f := caseFloat(c)
+	s := "normal"
+	switch {
+	case f != f || math.IsInf(f, 0):
+		s = "naninf"
+	case f == 0:
+		s = "zero"
+	case math.Abs(f) < 2.2250738585072014e-308:
+		s = "subnormal"
+	case math.Abs(f) >= 9.3e18:
+		s = "huge"
+	case math.Abs(f) < 1e-5:
+		s = "tiny"
+	}
+	body := toBytes(out[1:])
+	if bytes.IndexByte(body, 'e') >= 0 {
+		s += "/exp"
+	} else if bytes.IndexByte(body, '.') >= 0 {
+		s += "/dot"
+	} else {
+		s += "/int"
+	}
+	return s
+}
+
+var scAppendDecimal = &Model{
+	Name: "sc_appenddecimal",
+	Gen:  appendFloatGen("sc_appenddecimal", -1, 19),
+	Impl: func(c Case) []int64 {
+		bv, rest := takeList(c.Args[3:])
+		sv, _ := takeList(rest)
+		return encBytesOrPanic(func() []byte {
+			return strconv.AppendDecimal(withSpare(toBytes(bv), toBytes(sv)), caseFloat(c), int(c.Args[2]))
+		})
+	},
+	Class: appendResClass,
+}
+
+var scAppendFloat = &Model{
+	Name: "sc_appendfloat",
+	Gen:  appendFloatGen("sc_appendfloat", -1, 19),
+	Impl: func(c Case) []int64 {
+		bv, rest := takeList(c.Args[3:])
+		sv, _ := takeList(rest)
+		return encBytesOrPanic(func() []byte {
+			return strconv.AppendFloat(withSpare(toBytes(bv), toBytes(sv)), caseFloat(c), int(c.Args[2]))
+		})
+	},
+	Class: appendResClass,
+}
+
+var scFloat64exp = &Model{
+	Name: "sc_float64exp",
+	Gen: func(r *Rng, tier string, emit func(Case)) {
+		mk := func(f float64) {
+			if f != f || math.IsInf(f, 0) {
+				return
+			}
+			hi, lo := u64halves(math.Float64bits(f))
+			emit(Case{Fn: "sc_float64exp", Args: []int64{hi, lo}, Note: fmt.Sprintf("float64exp(%v)", f)})
+		}
+		for _, f := range c14FloatValues {
+			mk(math.Abs(f))
+		}
+		for e := -1074; e <= 1023; e++ {
+			mk(math.Ldexp(1, e))
+			mk(math.Nextafter(math.Ldexp(1, e), 0))
+		}
+		n := 500
+		if tier == "thorough" {
+			n = 50000
+		}
+		for i := 0; i < n; i++ {
+			mk(math.Abs(genFloat64(r)))
+		}
+	},
+	Impl:  func(c Case) []int64 { return []int64{int64(strconv.VerifFloat64exp(caseFloat(c)))} },
+	Class: func(c Case, out []int64) string { return fmt.Sprintf("exp%+04d", out[0]/50*50) },
+}
+
+func init() {
+	p := props["C14"]
+	p.Models = append(p.Models, scParseFloat, scParseDecimal, scAppendDecimal, scAppendFloat, scFloat64exp)
+}
+
+// ---- float oracles: the property text against math/big and the standard library ------------------------------
+//
+// Violation keys are "<function>-<symptom>:<class>:<input>".  <class> names the independently computed
+// condition on the INPUT under which the failure occurs ("" = none known); for a classified failure only the
+// first witness of each (function, symptom, class) is reported per run, so that KNOWN_FINDINGS.txt can list the
+// class and every failure outside the listed classes is still a VIOLATION.
+
+type classOnce struct{ seen map[string]bool }
+
+func (c *classOnce) violate(rep *Report, fnSymptom, class, input, desc string, rp map[string]interface{}) {
+	if class != "" {
+		k := fnSymptom + ":" + class
+		if c.seen[k] {
+			return
+		}
+		c.seen[k] = true
+	}
+	rep.Violate(fnSymptom+":"+class+":"+input, desc, rp)
+}
+
+// floatSyntax scans the longest prefix matching [+-]?(d+(.d*)?|.d+)([eE][+-]?d+)? (decimalOnly: -?(d+(.d*)?|.d+))
+// and returns its length (0 if none), the number of integer and fractional digits and the exponent value.
+func floatSyntax(b []byte, decimalOnly bool) (n, intDigits, fracDigits int, exp *big.Int) {
+	exp = new(big.Int)
+	i := 0
+	if len(b) > 0 && (b[0] == '-' || (!decimalOnly && b[0] == '+')) {
+		i = 1
+	}
+	for i < len(b) && '0' <= b[i] && b[i] <= '9' {
+		i++
+		intDigits++
+	}
+	if i < len(b) && b[i] == '.' {
+		j := i + 1
+		for j < len(b) && '0' <= b[j] && b[j] <= '9' {
+			j++
+		}
+		if intDigits > 0 || j > i+1 {
+			fracDigits = j - i - 1
+			i = j
+		}
+	}
+	if intDigits+fracDigits == 0 {
+		return 0, 0, 0, exp
+	}
+	if !decimalOnly && i < len(b) && (b[i] == 'e' || b[i] == 'E') {
+		j := i + 1
+		if j < len(b) && (b[j] == '+' || b[j] == '-') {
+			j++
+		}
+		k := j
+		for k < len(b) && '0' <= b[k] && b[k] <= '9' {
+			k++
+		}
+		if k > j {
+			exp.SetString(string(b[i+1:k]), 10)
+			i = k
+		}
+	}
+	return i, intDigits, fracDigits, exp
+}
+
+func floatPrefix(b []byte, decimalOnly bool) int {
+	n, _, _, _ := floatSyntax(b, decimalOnly)
+	return n
+}
+
+const minNormal = 2.2250738585072014e-308
+
+// abbrev renders a literal with long runs of one byte written as c{xN}
+func abbrev(b []byte) string {
+	var out []byte
+	for i := 0; i < len(b); {
+		j := i
+		for j < len(b) && b[j] == b[i] {
+			j++
+		}
+		if j-i >= 12 {
+			out = append(out, fmt.Sprintf("%c{x%d}", b[i], j-i)...)
+		} else {
+			out = append(out, b[i:j]...)
+		}
+		i = j
+	}
+	return fmt.Sprintf("%q", out)
+}
+
+func bigF(f float64) *big.Float { return new(big.Float).SetPrec(400).SetFloat64(f) }
+
+// relDist = |got - want| / |want| (want != 0, both finite)
+func relDist(got float64, want *big.Float) float64 {
+	d := new(big.Float).SetPrec(400).Sub(bigF(got), want)
+	d.Abs(d)
+	d.Quo(d, new(big.Float).SetPrec(400).Abs(want))
+	q, _ := d.Float64()
+	return q
+}
+
+func c14ParseFloatOracle(r *Rng, tier string, rep *Report) {
+	once := &classOnce{seen: map[string]bool{}}
+	lim64 := new(big.Int).Sub(new(big.Int).Lsh(big.NewInt(1), 63), big.NewInt(1000000))
+	check := func(b []byte, decimal bool) {
+		name, fn := "ParseFloat", strconv.ParseFloat
+		if decimal {
+			name, fn = "ParseDecimal", strconv.ParseDecimal
+		}
+		k, nInt, nFrac, exp := floatSyntax(b, decimal)
+		if decimal && k == 0 {
+			// the clause covers inputs that begin with a decimal number only
+			rep.Eval(name+":"+string(b), false, name+"/not-a-number")
+			return
+		}
+		// classes of inputs (conditions on the literal, computed here from its syntax)
+		class := ""
+		absExp := new(big.Int).Abs(exp)
+		switch {
+		case absExp.Cmp(lim64) >= 0:
+			class = "exp64" // the exponent's magnitude reaches the int64 limit
+		case absExp.Cmp(big.NewInt(308)) > 0 || nFrac > 308 || nInt > 308:
+			class = "extreme" // a decimal exponent or digit count beyond 308: outside math.Pow10's normal range
+		}
+		var f float64
+		var n int
+		rp := map[string]interface{}{"fn": name, "input": hx(b), "text": abbrev(b)}
+		if p := catch(func() { f, n = fn(b) }); p != nil {
+			rep.Violate(fmt.Sprintf("%s-panic::%q", name, b), fmt.Sprintf("%s(%s) panics: %v", name, abbrev(b), p), rp)
+			return
+		}
+		if n != k {
+			once.violate(rep, name+"-length", class, fmt.Sprintf("%q", b), fmt.Sprintf("%s(%s) consumed %d bytes, the longest prefix of the documented syntax has %d", name, abbrev(b), n, k), rp)
+			rep.Eval(name+":"+string(b), true, name+"/length")
+			return
+		}
+		bucket := name + "/none"
+		if k > 0 {
+			want, _ := gostrconv.ParseFloat(string(b[:k]), 64) // correctly rounded
+			bad := ""
+			switch {
+			case math.IsInf(want, 0):
+				bucket = name + "/inf"
+				if f != want {
+					bad = fmt.Sprintf("%s(%s) = %v, correctly rounded value is %v", name, abbrev(b), f, want)
+				}
+			case want == 0:
+				bucket = name + "/zero"
+				if f != 0 {
+					bad = fmt.Sprintf("%s(%s) = %v, correctly rounded value is 0", name, abbrev(b), f)
+				}
+			default:
+				bucket = name + "/normal"
+				if math.Abs(want) < minNormal {
+					bucket = name + "/subnormal"
+					if class == "" {
+						class = "subnormal" // the correctly rounded value is subnormal
+					}
+				}
+				e := math.Inf(1)
+				if f == f && !math.IsInf(f, 0) {
+					e = relDist(f, bigF(want))
+				}
+				if e > 1e-14 {
+					bad = fmt.Sprintf("%s(%s) = %v, correctly rounded value is %v (relative error %.3g > 1e-14)", name, abbrev(b), f, want, e)
+				}
+			}
+			if bad != "" {
+				once.violate(rep, name+"-value", class, fmt.Sprintf("%q", b), bad, rp)
+			}
+			if class != "" {
+				bucket += "/" + class
+			}
+		} else if f != 0 {
+			rep.Violate(fmt.Sprintf("%s-value::%q", name, b), fmt.Sprintf("%s(%s) = (%v, 0)", name, abbrev(b), f), rp)
+		}
+		rep.Eval(name+":"+string(b), k > 0, bucket)
+	}
+	k, n := 5, 40000
+	if tier == "thorough" {
+		k, n = 7, 2000000
+	}
+	allStrings(c14FloatAlphabet, k, func(b []byte) { check(b, false); check(b, true) })
+	parseFloatGen("x")(r, "quick", func(c Case) {
+		bv, _ := takeList(c.Args)
+		check(toBytes(bv), false)
+		check(toBytes(bv), true)
+	})
+	for i := 0; i < n; i++ {
+		var b []byte
+		if i%3 == 0 {
+			b = genFloatLiteral(r)
+		} else {
+			b = genFloatString(r)
+		}
+		check(b, false)
+		check(b, true)
+	}
+}
+
+// isLiteral: -?(digits(.digits)?|.digits)(e-?digits)? (allowExp, leading dot allowed) or -?digits(.digits)?
+func isLiteral(s []byte, allowExp, allowLeadingDot bool) bool {
+	i := 0
+	if i < len(s) && s[i] == '-' {
+		i++
+	}
+	nd := 0
+	for i < len(s) && '0' <= s[i] && s[i] <= '9' {
+		i++
+		nd++
+	}
+	if nd == 0 && !allowLeadingDot {
+		return false
+	}
+	if i < len(s) && s[i] == '.' {
+		i++
+		nf := 0
+		for i < len(s) && '0' <= s[i] && s[i] <= '9' {
+			i++
+			nf++
+		}
+		if nf == 0 {
+			return false
+		}
+		nd += nf
+	}
+	if nd == 0 {
+		return false
+	}
+	if allowExp && i < len(s) && s[i] == 'e' {
+		i++
+		if i < len(s) && s[i] == '-' {
+			i++
+		}
+		ne := 0
+		for i < len(s) && '0' <= s[i] && s[i] <= '9' {
+			i++
+			ne++
+		}
+		if ne == 0 {
+			return false
+		}
+	}
+	return i == len(s)
+}
+
+func bigOf(s []byte) (*big.Float, bool) {
+	f, _, err := big.ParseFloat(string(s), 10, 400, big.ToNearestEven)
+	return f, err == nil
+}
+
+func pow10Big(k int) *big.Float {
+	p := new(big.Float).SetPrec(400).SetInt(new(big.Int).Exp(big.NewInt(10), big.NewInt(int64(abs(k))), nil))
+	if k < 0 {
+		return new(big.Float).SetPrec(400).Quo(big.NewFloat(1).SetPrec(400), p)
+	}
+	return p
+}
+
+func abs(x int) int {
+	if x < 0 {
+		return -x
+	}
+	return x
+}
+
+// floorLog10 of a positive finite float64, exactly
+func floorLog10(f float64) int {
+	e := int(math.Floor(math.Log10(f)))
+	x := bigF(f)
+	for x.Cmp(pow10Big(e)) < 0 {
+		e--
+	}
+	for x.Cmp(pow10Big(e+1)) >= 0 {
+		e++
+	}
+	return e
+}
+
+func c14AppendOracle(r *Rng, tier string, rep *Report) {
+	once := &classOnce{seen: map[string]bool{}}
+	lim63 := new(big.Float).SetPrec(400).SetInt(new(big.Int).Lsh(big.NewInt(1), 63))
+	checkDecimal := func(f float64, dec int, pre, sp []byte) {
+		in := fmt.Sprintf("%#x:%d", math.Float64bits(f), dec)
+		rp := map[string]interface{}{"fn": "AppendDecimal", "bits": fmt.Sprintf("%#x", math.Float64bits(f)), "f": fmt.Sprint(f), "dec": dec}
+		var out []byte
+		if p := catch(func() { out = strconv.AppendDecimal(withSpare(pre, sp), f, dec) }); p != nil {
+			rep.Violate("AppendDecimal-panic::"+in, fmt.Sprintf("AppendDecimal(%v, %d) panics: %v", f, dec, p), rp)
+			return
+		}
+		if !bytes.HasPrefix(out, pre) {
+			rep.Violate("AppendDecimal-prefix::"+in, fmt.Sprintf("AppendDecimal(%q, %v, %d) = %q: destination prefix not preserved", pre, f, dec, out), rp)
+			return
+		}
+		body := out[len(pre):]
+		if f != f || math.IsInf(f, 0) {
+			if len(body) != 0 {
+				rep.Violate("AppendDecimal-naninf::"+in, fmt.Sprintf("AppendDecimal(%v, %d) appended %q", f, dec, body), rp)
+			}
+			rep.Eval("d:"+in, true, "AppendDecimal/naninf")
+			return
+		}
+		d := dec
+		if d < 0 || d > 17 {
+			d = 17
+		}
+		scaled := new(big.Float).SetPrec(400).Mul(bigF(f), pow10Big(d))
+		absScaled := new(big.Float).Abs(scaled)
+		class, bucket := "", "AppendDecimal/int64"
+		if absScaled.Cmp(lim63) >= 0 {
+			class, bucket = "int64-overflow", "AppendDecimal/int64-overflow" // |f| * 10^dec does not fit int64
+		}
+		bad := func(symptom, desc string) { once.violate(rep, "AppendDecimal-"+symptom, class, in, desc, rp) }
+		defer rep.Eval("d:"+in, true, bucket)
+		if !isLiteral(body, false, false) {
+			bad("shape", fmt.Sprintf("AppendDecimal(%v, %d) = %q is not -?digits(.digits)?", f, dec, body))
+			return
+		}
+		if k := bytes.IndexByte(body, '.'); k >= 0 {
+			if body[len(body)-1] == '0' {
+				bad("shape", fmt.Sprintf("AppendDecimal(%v, %d) = %q has a trailing zero after the dot", f, dec, body))
+			}
+			if len(body)-k-1 > d {
+				bad("shape", fmt.Sprintf("AppendDecimal(%v, %d) = %q has more than %d decimals", f, dec, body, d))
+			}
+		}
+		if len(body) > 1 && body[0] == '0' && body[1] != '.' || len(body) > 2 && body[0] == '-' && body[1] == '0' && body[2] != '.' {
+			bad("shape", fmt.Sprintf("AppendDecimal(%v, %d) = %q has a leading zero", f, dec, body))
+		}
+		v, ok := bigOf(body)
+		if !ok {
+			bad("shape", fmt.Sprintf("AppendDecimal(%v, %d) = %q does not parse", f, dec, body))
+			return
+		}
+		if (body[0] == '-') != (v.Sign() < 0) || (v.Sign() < 0 && f > 0) || (v.Sign() > 0 && f < 0) {
+			bad("sign", fmt.Sprintf("AppendDecimal(%v, %d) = %q has the wrong sign", f, dec, body))
+		}
+		// parses back within the requested digits: |v - f| * 10^dec <= 0.5 (+ the float64 rounding of f*10^dec: 2^-51 relative)
+		diff := new(big.Float).SetPrec(400).Sub(v, bigF(f))
+		diff.Abs(diff)
+		diff.Mul(diff, pow10Big(d))
+		tol := new(big.Float).SetPrec(400).Mul(absScaled, big.NewFloat(math.Ldexp(1, -51)))
+		tol.Add(tol, big.NewFloat(0.5))
+		if diff.Cmp(tol) > 0 {
+			dd, _ := diff.Float64()
+			bad("value", fmt.Sprintf("AppendDecimal(%v, %d) = %q is %.6g units of the last requested digit away from the argument (more than 0.5)", f, dec, body, dd))
+		}
+	}
+	checkFloat := func(f float64, prec int, pre, sp []byte) {
+		in := fmt.Sprintf("%#x:%d", math.Float64bits(f), prec)
+		rp := map[string]interface{}{"fn": "AppendFloat", "bits": fmt.Sprintf("%#x", math.Float64bits(f)), "f": fmt.Sprint(f), "prec": prec}
+		var out []byte
+		if p := catch(func() { out = strconv.AppendFloat(withSpare(pre, sp), f, prec) }); p != nil {
+			rep.Violate("AppendFloat-panic::"+in, fmt.Sprintf("AppendFloat(%v, %d) panics: %v", f, prec, p), rp)
+			return
+		}
+		if !bytes.HasPrefix(out, pre) {
+			rep.Violate("AppendFloat-prefix::"+in, fmt.Sprintf("AppendFloat(%q, %v, %d) = %q: destination prefix not preserved", pre, f, prec, out), rp)
+			return
+		}
+		body := out[len(pre):]
+		if f != f || math.IsInf(f, 0) {
+			if len(body) != 0 {
+				rep.Violate("AppendFloat-naninf::"+in, fmt.Sprintf("AppendFloat(%v, %d) appended %q", f, prec, body), rp)
+			}
+			rep.Eval("f:"+in, true, "AppendFloat/naninf")
+			return
+		}
+		p := prec
+		if p < 0 || p > 17 {
+			p = 17
+		}
+		a := math.Abs(f)
+		class, bucket := "", "AppendFloat/normal"
+		e10, over := 0, false
+		switch {
+		case f == 0:
+			bucket = "AppendFloat/zero"
+		case a < minNormal:
+			class, bucket = "subnormal", "AppendFloat/subnormal"
+		default:
+			e10 = floorLog10(a)
+			// float64exp estimates the decimal exponent from the binary one: floor(exp2*log10(2)), which is one too
+			// large for 2^(exp2-1) <= |f| < 10^est; the output then has one significant digit fewer than requested
+			_, exp2 := math.Frexp(a)
+			est := math.Floor(float64(exp2) * 0.3010299956639812)
+			over = int(est) > e10
+			if over {
+				bucket = "AppendFloat/exp-overestimate"
+			}
+		}
+		bad := func(symptom, desc string) { once.violate(rep, "AppendFloat-"+symptom, class, in, desc, rp) }
+		defer rep.Eval("f:"+in, true, bucket)
+		if !isLiteral(body, true, true) {
+			bad("shape", fmt.Sprintf("AppendFloat(%v, %d) = %q is not a well-formed literal", f, prec, body))
+			return
+		}
+		if floatPrefix(body, false) != len(body) {
+			bad("shape", fmt.Sprintf("AppendFloat(%v, %d) = %q is not matched entirely by ParseFloat's syntax", f, prec, body))
+		}
+		txt := body
+		if len(txt) > 0 && txt[0] == '-' {
+			txt = txt[1:]
+		}
+		if len(txt) > 0 && txt[0] == '.' {
+			txt = append([]byte{'0'}, txt...)
+		}
+		v, ok := bigOf(txt)
+		if !ok {
+			bad("shape", fmt.Sprintf("AppendFloat(%v, %d) = %q does not parse", f, prec, body))
+			return
+		}
+		if (body[0] == '-') != (f < 0 && v.Sign() != 0) {
+			bad("sign", fmt.Sprintf("AppendFloat(%v, %d) = %q has the wrong sign", f, prec, body))
+		}
+		if f == 0 {
+			if v.Sign() != 0 {
+				bad("value", fmt.Sprintf("AppendFloat(%v, %d) = %q", f, prec, body))
+			}
+			return
+		}
+		// parses back to the argument truncated to prec+1 significant digits: 0 <= |f| - v < one unit of that digit
+		// (+- 2^-50 relative for the float64 scaling)
+		diff := new(big.Float).SetPrec(400).Sub(bigF(a), v)
+		slack := new(big.Float).SetPrec(400).Mul(bigF(a), big.NewFloat(math.Ldexp(1, -50)))
+		unit := pow10Big(e10 - p)
+		hi := new(big.Float).SetPrec(400).Add(unit, slack)
+		lo := new(big.Float).SetPrec(400).Neg(slack)
+		if class == "subnormal" {
+			e10 = floorLog10(a)
+			unit = pow10Big(e10 - p)
+			hi.Add(unit, slack)
+		}
+		if diff.Cmp(hi) >= 0 || diff.Cmp(lo) < 0 {
+			if class == "" {
+				// classify by cause, each verified on this very output so that nothing else hides behind the class
+				hi10 := new(big.Float).SetPrec(400).Add(new(big.Float).SetPrec(400).Mul(unit, big.NewFloat(10)), slack)
+				v100 := new(big.Float).SetPrec(400).Mul(v, big.NewFloat(100))
+				d100 := new(big.Float).SetPrec(400).Sub(bigF(a), v100)
+				switch {
+				case 100 <= a && a < 1000 && len(txt) == 5 && txt[1] == '.' && txt[3] == '0' && txt[4] == '0' && d100.Cmp(hi10) < 0 && d100.Cmp(lo) >= 0:
+					class = "hundreds" // 100 <= |f| < 1000: "d.d" followed by the two zeros meant for an integer mantissa
+				case over && diff.Cmp(hi10) < 0 && diff.Cmp(lo) >= 0:
+					class = "exp-overestimate" // one significant digit fewer than requested, otherwise right
+				}
+			}
+			dd, _ := new(big.Float).Quo(diff, unit).Float64()
+			bad("value", fmt.Sprintf("AppendFloat(%v, %d) = %q: the argument minus the result is %.4g units of the last requested significant digit (truncation allows [0,1))", f, prec, body, dd))
+		}
+	}
+	checkFloat(123, 1, nil, nil)
+	checkFloat(9.56, 2, nil, nil)
+	checkFloat(0.5, 0, nil, nil)
+	for _, f := range c14FloatValues {
+		for p := -1; p <= 18; p++ {
+			checkDecimal(f, p, nil, nil)
+			checkDecimal(-f, p, []byte("ab"), bytes.Repeat([]byte{'#'}, 40))
+			checkFloat(f, p, nil, nil)
+			checkFloat(-f, p, []byte("ab"), bytes.Repeat([]byte{'#'}, 40))
+		}
+	}
+	for k := -2200; k <= 2200; k++ {
+		for p := 0; p <= 4; p++ {
+			checkDecimal(float64(k)/1000, p, nil, nil)
+			checkFloat(float64(k)/1000, p, nil, nil)
+			checkFloat(float64(k), p, nil, nil)
+		}
+	}
+	n := 40000
+	if tier == "thorough" {
+		n = 2000000
+	}
+	for i := 0; i < n; i++ {
+		b, sp := genPrefixSpare(r)
+		f := genFloat64(r)
+		checkDecimal(f, r.Intn(20)-1, b, sp)
+		checkFloat(f, r.Intn(20)-1, b, sp)
+	}
+}
+
+func init() {
+	p := props["C14"]
+	p.Oracles = append(p.Oracles,
+		&Oracle{Name: "c14-parsefloat-bigref", Run: c14ParseFloatOracle},
+		&Oracle{Name: "c14-append-bigref", Run: c14AppendOracle})
 }
